@@ -271,6 +271,105 @@ def erased(n):
     return out
 
 
+def dim_branch_equivalent(F, fname):
+    """(True / False / None, detail) for a function whose body is `if constexpr (<test on DIM>) return A; else return B;`:
+    in every instantiation that takes the one-coordinate branch, A must equal what B denotes for a vector with a single
+    component."""
+    import sympy as sp
+    inst = [f for f in F.functions if f["name"] == fname and any(("::" + s_ + "<") in f.get("cls", "") for s_ in ("PPolyND",) + SPLINES)]
+
+    def taken(f):
+        ifs = [n for n in walk(f.get("body")) if n.get("k") == "if" and n.get("constexpr") and any(x.get("nttp") == "DIM" for x in walk(n.get("cond")))]
+        if len(ifs) != 1 or not ifs[0].get("taken"):
+            return None
+        br = ifs[0].get(ifs[0]["taken"])
+        sts = br.get("body", []) if isinstance(br, dict) and br.get("k") == "block" else [br]
+        sts = [x for x in sts if isinstance(x, dict) and x.get("k") != "null"]
+        if len(sts) == 1 and sts[0].get("k") == "return" and sts[0].get("e") is not None:
+            return sts[0]["e"]
+        if len(sts) == 1 and sts[0].get("k") == "expr":
+            e_ = sts[0]["e"]
+            if e_.get("k") == "assign" and e_.get("op") == "=":
+                return {"k": "bin", "op": "-", "l": {"k": "var", "name": "lhs:" + pp(e_["l"])}, "r": e_["r"]}
+            if e_.get("k") == "call" and callee(e_).get("op") == "=" and e_.get("obj") is not None and len(e_.get("args", [])) == 1:
+                return {"k": "bin", "op": "-", "l": {"k": "var", "name": "lhs:" + pp(e_["obj"])}, "r": e_["args"][0]}
+        return None
+
+    def scal(e):
+        while isinstance(e, dict) and e.get("k") in ("cast", "paren", "conv", "copy", "implicit") and e.get("e") is not None:
+            e = e["e"]
+        if not isinstance(e, dict):
+            return None
+        k = e.get("k")
+        if k == "lit":
+            try:
+                return sp.nsimplify(sp.Float(str(e.get("v"))), rational=True)
+            except Exception:
+                return None
+        if k == "var":
+            return sp.Symbol("v_" + str(e.get("name")), real=True)
+        if k == "mem":
+            return sp.Symbol("m_" + pp(e), real=True)
+        if k == "un" and e.get("op") in ("-", "+"):
+            x = scal(e["e"])
+            return None if x is None else (-x if e["op"] == "-" else x)
+        if k == "bin" and e.get("op") in ("+", "-", "*", "/"):
+            a, b = scal(e["l"]), scal(e["r"])
+            if a is None or b is None:
+                return None
+            return {"+": a + b, "-": a - b, "*": a * b, "/": a / b}[e["op"]]
+        if k == "call":
+            c = callee(e)
+            nm, op = c.get("name"), c.get("op")
+            args = [scal(a) for a in e.get("args", []) if not (isinstance(a, dict) and a.get("k") == "defaultarg")]
+            if any(a is None for a in args):
+                return None
+            if e.get("obj") is not None:
+                o = scal(e["obj"])
+                if o is None:
+                    return None
+                if op in ("()", "[]") and all(a == 0 for a in args):
+                    return o
+                if nm in ("x", "value", "sum", "prod", "mean", "transpose", "array", "matrix", "eval", "maxCoeff", "minCoeff") and not args:
+                    return o
+                if nm in ("norm", "cwiseAbs", "abs", "lpNorm") and not args:
+                    return sp.Abs(o)
+                if nm == "squaredNorm" and not args:
+                    return o ** 2
+                if nm == "dot" and len(args) == 1:
+                    return o * args[0]
+                if op in ("+", "-", "*", "/") and len(args) == 1:
+                    return {"+": o + args[0], "-": o - args[0], "*": o * args[0], "/": o / args[0]}[op]
+                if nm in ("row", "col", "middleRows", "block", "segment", "head", "tail", "topRows", "bottomRows"):
+                    return sp.Symbol("e_" + pp(e), real=True)      # a part of an array: the same text denotes the same part
+                return None
+            if nm in ("abs", "fabs") and len(args) == 1:
+                return sp.Abs(args[0])
+            if nm == "sqrt" and len(args) == 1:
+                return sp.sqrt(args[0])
+            if op in ("+", "-", "*", "/") and len(args) == 2:
+                return {"+": args[0] + args[1], "-": args[0] - args[1], "*": args[0] * args[1], "/": args[0] / args[1]}[op]
+        return None
+    by_dim = {}
+    for f in inst:
+        t = taken(f)
+        if t is None:
+            return None, "the branches are not single return / assignment statements"
+        d = (F.record(f["cls"]).get("targs") or [None])[0]
+        by_dim.setdefault(d, []).append((f, t))
+    if 1 not in by_dim or len(by_dim) < 2:
+        return None, "no instantiation takes the one-coordinate branch, or only one branch is instantiated"
+    gen_dim = max(d for d in by_dim if d != 1)
+    a, b = scal(by_dim[1][0][1]), scal(by_dim[gen_dim][0][1])
+    if a is None or b is None:
+        return None, "branch expressions outside the one-coordinate vocabulary: %s | %s" % (pp(by_dim[1][0][1])[:60], pp(by_dim[gen_dim][0][1])[:60])
+    try:
+        same = sp.simplify(a - b) == 0
+    except Exception:
+        return None, "comparison failed"
+    return bool(same), "DIM = 1 computes %s; the general branch denotes %s for one coordinate" % (a, b)
+
+
 def check_raw_views(chk, F):
     per = {}      # (template, other template arguments) -> {class: {(function, arity): [(object, first row, row step, rows)]}}
     nviews = 0
@@ -343,5 +442,13 @@ def check_parametricity(chk, F):
                 conds.add((f["name"], pp(n["cond"])))
     chk.note("DIM-dependent compile-time branches: %s" % sorted(conds))
     for nm, c in sorted(conds):
-        chk.ob("C13-R4", "DIM-dependent branch in %s: %s (both sides compared by R3)" % (nm, c), nm == "propagateGradInternal", "", "only the septic adjoint may branch on DIM; its branches are compared by R3",
-               construct="dim-branch/%s/%s" % (nm, c))
+        if nm == "propagateGradInternal":
+            chk.ob("C13-R4", "DIM-dependent branch in %s: %s (both sides compared by R3)" % (nm, c), True, "", "the septic adjoint branches on DIM; its branches are compared by R3", construct="dim-branch/%s/%s" % (nm, c))
+            continue
+        # any other branch on DIM: the branch taken for one DIM must compute what the branch taken for the other DIMs computes
+        # there.  Decided for expression-bodied branches of a one-coordinate special case (a vector with one component is
+        # its component: norm = |x|, dot = product, sum = x); anything else is not decided here.
+        eq, det = dim_branch_equivalent(F, nm)
+        if eq is None:
+            raise Broken("DIM-dependent branch in %s (%s): %s" % (nm, c, det))
+        chk.ob("C13-R4", "DIM-dependent branch in %s: %s - the special case computes what the general code computes for that DIM" % (nm, c), eq, "", det, construct="dim-branch/%s/%s" % (nm, c))
